@@ -42,8 +42,10 @@ MkFile(ts) ==
          shx |-> EncodeHeader(50 + 4 * Len(ts), t0, ZeroBox) \o en,
          shxRev |-> EncodeHeader(50 + 4 * Len(ts), t0, ZeroBox) \o RevEntries(en, Len(ts))]
 
+Thorough == IOEnv.SCOPE = "thorough"
 TypeSeqs == { << >> } \cup { << a >> : a \in Codes } \cup { << a, b >> : a, b \in Codes }
             \cup { << a, a, b >> : a, b \in Codes }
+            \cup (IF Thorough THEN { << a, b, c >> : a, b, c \in Codes } ELSE {})
 
 MetaLine == [ev |-> "meta", exactxy |-> TRUE,
              fxy |-> [k \in {ToString(v) : v \in DOMAIN StdXY} |-> StdXY[CHOOSE v \in DOMAIN StdXY : ToString(v) = k]],
